@@ -1,5 +1,6 @@
 import HdVerif.Proofs.SegTilesTie
 import HdVerif.Generated.T21
+import HdVerif.Generated.T26
 /-! # C01  Segmentation masks survive encode, write and read unchanged
 
 Property theorems only (helper lemmas: `Proofs/SegEncode.lean`, `Proofs/SegCast.lean`, `Proofs/SegRoundtrip.lean`,
@@ -506,6 +507,28 @@ theorem pffg_sites_pinned : segPffgSites =
    "_get_pffg_item | DataElement | 6422539,'US',int(segment_number)",
    "_get_pffg_item | DataElement | 528736,'IS',source_image_index+1"] ∧ segDimIndexStart = 1 := by
   constructor <;> rfl
+
+/-- (4-pin) **Which planes are visited under `omit_empty_frames`** (tie T, target T26).  The statements of the omit block of
+`Segmentation.__init__` -- emptiness judged on the array itself or, for floats, on `np.around(x * float(mfv)) != 0` (the
+quantised values); the "all empty => keep all" fall-back that also switches the per-segment skipping off; the re-filtering of
+`plane_sort_index` by the set of non-empty planes -- and of `_get_nonempty_plane_indices`, regenerated on every run, are the
+ones `planeNonEmpty` / `planOrder` were written against (`storedFrames_spec`, `frames_nonempty`, `nonempty_pair_stored_once`
+speak about those).  A *change detector*; the behaviour itself is tied by correspondence (L1 NumberOfFrames / set of keys, L2
+loop order). -/
+theorem omit_sites_pinned : segOmitSites =
+  ["__init__ | omit_empty_frames & pixel_array.dtype.kind=='f' | occupied_array=np.around(pixel_array*float(max_fractional_value))!=0",
+   "__init__ | omit_empty_frames & not(pixel_array.dtype.kind=='f') | occupied_array=pixel_array",
+   "__init__ | omit_empty_frames & tile_pixel_array | included_plane_indices,is_empty=self._get_nonempty_tile_indices(occupied_array,plane_positions=plane_positions,rows=self.Rows,columns=self.Columns)",
+   "__init__ | omit_empty_frames & not(tile_pixel_array) | included_plane_indices,is_empty=self._get_nonempty_plane_indices(occupied_array)",
+   "__init__ | omit_empty_frames & is_empty | omit_empty_frames=False",
+   "__init__ | omit_empty_frames & is_empty | included_plane_indices=list(range(len(plane_positions)))",
+   "__init__ | omit_empty_frames & not(is_empty) | included_plane_indices_set=set(included_plane_indices)",
+   "__init__ | omit_empty_frames & not(is_empty) | plane_sort_index=[indforindinplane_sort_indexifindinincluded_plane_indices_set]",
+   "__init__ | not(omit_empty_frames) | included_plane_indices=list(range(len(plane_positions)))",
+   "_get_nonempty_plane_indices | - | source_image_indices=[ifori,frminenumerate(pixel_array)ifnp.any(frm)]",
+   "_get_nonempty_plane_indices | len(source_image_indices)==0 | return(list(range(pixel_array.shape[0])),True)",
+   "_get_nonempty_plane_indices | - | return(source_image_indices,False)"] := by
+  rfl
 
 /-- (10a) **Dimension organisation agrees with the frame content order.**  For every accepted mask, with `ord` = the planes
 the loop visits (plane order minus the omitted empty planes): every frame's plane is a visited plane; the
